@@ -10,10 +10,14 @@ Definition doc_default_allowed : list num :=
   map (fun z => (z, 0%Z)) [-1; 0; 1; 2; 3; 4; 5; 10; 100; 1000; 21; 22; 80; 443; 3000; 5000; 8080; 8443]%Z.
 Definition doc_default_max_small : Z := 10%Z.
 
+(* a key of the language's sub-section overrides the top-level key, which overrides the default *)
+Definition spec_pick {A} (lang top : option A) (dflt : A) : A :=
+  match lang, top with Some x, _ => x | None, Some y => y | None, None => dflt end.
+
 Definition spec_allowed (cfg : mconfig) : list num :=
-  map norm (match c_allowed cfg with Some l => l | None => doc_default_allowed end).
+  map norm (spec_pick (match c_lang cfg with Some (la, _) => la | None => None end) (c_allowed cfg) doc_default_allowed).
 Definition spec_max_small (cfg : mconfig) : Z :=
-  match c_max_small cfg with Some z => z | None => doc_default_max_small end.
+  spec_pick (match c_lang cfg with Some (_, lm) => lm | None => None end) (c_max_small cfg) doc_default_max_small.
 
 (* UPPER_CASE: upper-case letters, digits and underscores, starting with a letter, at least two characters *)
 Definition doc_upper_name (name : string) : bool :=
@@ -147,9 +151,10 @@ Definition lit_ok (lg : mlang) (l : lit) : bool :=
 
 Definition ctx_ok (lg : mlang) (k : skind) (c : ctx) : bool :=
   match lg, c with
-  | MPy, (CTsEnum | CRsStatic) => false
-  | MTs, (CRange | CEnumerate | CStrRepeatL | CStrRepeatR | CDictKeys | CRsStatic) => false
-  | MRs, (CDefault | CUpperAnn | CRange | CEnumerate | CStrRepeatL | CStrRepeatR | CDictKeys | CTsEnum) => false
+  | MPy, (CTsEnum | CRsStatic | CMacro) => false
+  | MTs, (CRange | CEnumerate | CStrRepeatL | CStrRepeatR | CDictKeys | CRsStatic | CDecorator | CKwarg | CMacro) => false
+  | MRs, (CDefault | CUpperAnn | CRange | CEnumerate | CStrRepeatL | CStrRepeatR | CDictKeys | CTsEnum
+          | CInterp | CDecorator | CKwarg) => false
   | _, _ => true
   end
   && match c with
@@ -164,7 +169,7 @@ Definition ctx_ok (lg : mlang) (k : skind) (c : ctx) : bool :=
      end.
 
 Definition single_lit_ctx (c : ctx) : bool :=
-  match c with CArg | CElts | CUpperTuple | CTsEnum | CDictKeys | CRange => false | _ => true end.
+  match c with CArg | CElts | CUpperTuple | CTsEnum | CDictKeys | CRange | CDecorator | CNested | CMacro => false | _ => true end.
 
 Definition name_ok (c : ctx) (name : string) : bool :=
   if ctx_is_const_def c then doc_upper_name name
@@ -173,6 +178,7 @@ Definition name_ok (c : ctx) (name : string) : bool :=
 Definition site_good (lg : mlang) (k : skind) (s : site) : bool :=
   ctx_ok lg k (s_ctx s) && name_ok (s_ctx s) (s_name s)
   && match s_lits s with [] => false | [_] => true | _ => negb (single_lit_ctx (s_ctx s)) end
+  && match s_ctx s with CMatch => forallb lit_is_numeric (s_lits s) | _ => true end      (* a pattern `case True` is no constant *)
   && forallb (lit_ok lg) (s_lits s).
 
 Definition scope_good (lg : mlang) (sc : scope) : bool :=
